@@ -1433,6 +1433,11 @@ def gen_e2e(st, tier, flavour):
         for sp in case["specs"]:
             if sp["factory"] == "glob_file" and rk.random() < 0.6:
                 sp["nfiles"] = 2
+            # neighbours with different exemptions: what one thread is exempt from, the next one is not
+            if rk.random() < 0.3:
+                sp["no_redact"] = not sp["no_redact"]
+            if rk.random() < 0.3:
+                sp["no_obfuscate"] = sorted(set(sp["no_obfuscate"]) ^ set(rk.sample(["keyword", "password"], rk.randint(1, 2))))
     return case
 
 
